@@ -103,7 +103,7 @@ def r1(ctx, tables):
         # the peer marked is the one that answered: looked up by distance(node_id, target_key)
         osb = meta["on_success"]["body"]
         op = meta["on_success"]["prov"]
-        ent = [(bi, t) for bi, t in osb.calls() if callee_matches(t, r"BTreeMap::<.*>::entry$", r"BTreeMap::entry$")]
+        ent = [(bi, t) for bi, t in osb.calls() if callee_matches(t, r"BTreeMap::<.*>::(entry|get_mut|get)$", r"BTreeMap::(entry|get_mut|get)$")]
         first = [fmt_short(op.operand(t.args[1])) for bi, t in ent]
         rule.check(any(x in ("Key::distance(node_id, self.target_key)", "Key::distance(self.target_key, node_id)") for x in first),
                    "[%s] the answering peer is looked up by its distance to the target" % which, "%s|on_success|lookup" % which,
